@@ -85,6 +85,15 @@ def register(reg):
             return [("the-caller's-frame-is-untouched-also-when-the-transform-is-rejected", z3.Not(mutated(c.st, S)[c.X.z]))]
         out = [("the-caller's-frame-is-never-handed-to-anything-that-may-modify-it", z3.Not(mutated(c.st, S)[c.X.z])),
                ("returns-a-frame-the-caller-did-not-supply", z3.And(owned(S)(c.result.z), c.result.z != c.X.z))]
+        # C17: what the transform computes -- blocks -> row records (incoming side, if any), then row records -> blocks (outgoing side, if any), on the index-free copy
+        FR, SP = S.sort("Frame"), S.sort("RecordSpecification")
+        b2r = S.func("frame_blocks_to_rowrecs", FR, SP, FR)
+        r2b = S.func("frame_rowrecs_to_blocks", FR, SP, FR)
+        r0 = S.func("frame_reset_index_drop", FR, FR)(c.X.z)
+        bi, bo = c.field(c.self, "blocks_in"), c.field(c.self, "blocks_out")
+        r1 = z3.If(bi.is_none, r0, b2r(r0, bi.val.z))
+        r2 = z3.If(bo.is_none, r1, r2b(r1, bo.val.z))
+        out.append(("the-result-is-the-outgoing-conversion-of-the-incoming-conversion-of-the-index-free-copy", c.result.z == r2))
         return out
 
     reg.add(Contract(key="RecordMap.transform", file=F, qualname="RecordMap.transform", cls="RecordMap",
